@@ -460,6 +460,9 @@ def run(ctx: Ctx):
         dele = [n for n in own_nodes(wf.node) if isinstance(n, ast.Call) and isinstance(n.func, ast.Name) and n.func.id == generic]
         okd = len(dele) >= 1 and all(any(ast.unparse(a_) in ("lambda s: adj[s]",) for a_ in d.args) for d in dele)
         ctx.ob("C12-O8", "R18 SIBLING-AGREEMENT (policy)", wf, f"{wname} delegates to {generic} with the successor lists it built", okd, "", node=dele[0] if dele else wf.node)
+        if wname in ("bfs_edges", "dfs_edges", "dijkstra_edges") and dele:
+            kw = {k.arg: ast.unparse(k.value) for d in dele for k in d.keywords}
+            ctx.ob("C12-O8", "R2 BUDGET-EXIT", wf, f"{wname} gives {generic} an iteration budget that cannot bind (every node is expanded at most once)", kw.get("max_iter") in ("n_nodes + 1", "1 + n_nodes", "n_nodes + 2", "2 * n_nodes"), f"max_iter = {kw.get('max_iter', 'the default 1_000_000')}: on larger graphs the Python path stops early (MAX_ITER, or a partial set) where the Rust kernel, which has no budget, answers", node=dele[0])
         if wname != "dijkstra_edges" and dele:
             # dijkstra_edges answers the all-distances query with its own loop; the others only repackage
             gn = [wcfg.stmt_node_containing(d) for d in dele]
@@ -568,7 +571,7 @@ def _search_edges(search, n_nodes, edges, source, target):
     for u, v in edges:
         adj[u].append(v)
 %s
-    result = search(source, target, lambda s: adj[s])
+    result = search(source, target, lambda s: adj[s], max_iter=n_nodes + 1)
     if target is None:
         return Result(sorted(result.solution), 0, result.iterations, result.evaluations)
     return result
